@@ -6,6 +6,7 @@ import (
 	"testing"
 
 	"verif/internal/findings"
+	"verif/internal/gen"
 	"verif/internal/harness"
 	"verif/internal/treeprop"
 )
@@ -14,4 +15,9 @@ func TestMain(m *testing.M) { harness.Main(m) }
 
 func TestProperty(t *testing.T) {
 	harness.Run(t, treeprop.Plan("C03", findings.Suppressor("C03")))
+}
+
+// FuzzProperty is the native coverage-guided fuzz entry (thorough tier).
+func FuzzProperty(f *testing.F) {
+	harness.FuzzTarget(f, treeprop.Plan("C03", findings.Suppressor("C03")), "memory", gen.SeedCorpus())
 }
